@@ -150,14 +150,11 @@ def feature_table(genes):
 
 
 def overlaps_at_least(r1, r2, delta):
-    o1 = r1[1] - r2[0]
-    o2 = r2[1] - r1[0]
-    if o1 < 0 or o2 < 0:
+    """at least delta common positions, or one range inside the other (the definition, not a copy of the code)"""
+    inter = min(r1[1], r2[1]) - max(r1[0], r2[0]) + 1
+    if inter < 1:
         return False
-    d = delta - 1
-    if r1[1] < r2[1]:
-        return o1 >= d or r1[0] >= r2[0]
-    return o2 >= d or r1[0] <= r2[0]
+    return inter >= delta or (r1[0] <= r2[0] and r2[1] <= r1[1]) or (r2[0] <= r1[0] and r1[1] <= r2[1])
 
 
 def recount(world, delta, processed, clusters_of_gene):
